@@ -103,7 +103,7 @@ def runRfc822Hdr (args : List String) : String :=
   match args with
   | [hdr, names] =>
     let h := unhex hdr
-    let want := (unhexList names).map goLower       -- wantFields[strings.ToLower(field)]
+    let want := (unhexList names).map foldKey       -- wantFields[foldKey(field)]
     match parseEntries h with
     | .error e => "err " ++ showHErr e
     | .ok es => s!"ok keys={hexList (keysOf h es)} f={hex (fields h es want)} n={hex (fieldsNot h es want)}"
@@ -217,13 +217,18 @@ def topIsMessageRfc822 (l : Bytes) : Bool :=
     containsSub [109, 101, 115, 115, 97, 103, 101, 47, 114, 102, 99, 56, 50, 50] (lowerBytes ln)
 
 
+/-- `strings.ToLower(s)` (Unicode folding: U+212A -> k, U+0130 -> i, ill-formed bytes -> U+FFFD): what
+    rfc822.Header.Fields / FieldsNot folded the requested names with before fix 047f712 (finding d28).  Not part
+    of the model any more; only the regression label `-unicode-fold-of-requested-name` below uses it. -/
+def goLower (b : Bytes) : Bytes := goCaseLoop false b.length b
+
 /-- the requested names as the reference semantics reads them: ASCII letters folded, nothing else -/
 def specWant (names : String) : List Bytes := (unhexList names).map lowerBytes
 
 /-- A HEADER.FIELDS / HEADER.FIELDS.NOT answer `got` differs from the reference selection: classify.
     `-unicode-fold-of-requested-name`: the answer is the reference selection for the names folded the way
-    `strings.ToLower` folds them (U+212A -> k, U+0130 -> i; finding d28), i.e. a non-ASCII requested name
-    matched an ASCII field name; `-name-selection`: the answer is a different subset of the header's fields
+    `strings.ToLower` folds them (U+212A -> k, U+0130 -> i), i.e. a non-ASCII requested name matched an ASCII
+    field name (finding d28, repaired by fix 047f712: regression detector); `-name-selection`: the answer is a different subset of the header's fields
     (some field sits on the wrong side), the bytes of the returned fields are intact. -/
 def fieldsMismatchShape (negate : Bool) (names : String) (h got : Bytes) : String :=
   let goWant := (unhexList names).map goLower
